@@ -6,6 +6,7 @@
 import SvgVerif.Model.Wire
 import SvgVerif.Model.Transform
 import SvgVerif.Model.Length
+import SvgVerif.Model.Color
 open Svg Svg.Wire
 
 def fmtMat (m : Mat Float) : String :=
@@ -84,8 +85,47 @@ def c12op (op : String) (a b : Len Float) : String :=
   | "eq" => "OK B " ++ (if Len.eq 1e-12 a b then "1" else "0")
   | _ => "bad-op"
 
+-- ---------------------------------------------------------------- C13
+def floorF (x : Float) : Int :=
+  let f := x.floor
+  if f < 0 then -((-f).toUInt64.toNat : Int) else (f.toUInt64.toNat : Int)
+
+instance : Svg.Color.PyRound Float where
+  trunc x := if x < 0 then -floorF (-x) else floorF x
+  round x :=
+    let f := floorF x
+    let d := x - x.floor
+    if d < 0.5 then f else if d > 0.5 then f + 1 else (if f % 2 == 0 then f else f + 1)
+  mod1 x := x - x.floor
+
+def intOf (s : String) : Int := s.toInt?.getD 0
+
+def c13get (ch : String) (v : Nat) : String :=
+  match ch with
+  | "red" => toString (Color.red v) | "green" => toString (Color.green v)
+  | "blue" => toString (Color.blue v) | "alpha" => toString (Color.alpha v)
+  | "rgb" => toString (Color.getRgb v) | "bgr" => toString (Color.getBgr v)
+  | "argb" => toString (Color.getArgb v) | "rgba" => toString v
+  | "hex" => " ".intercalate ((Color.hexDigits v).map toString)
+  | _ => "bad-op"
+
+def c13set (ch : String) (v : Nat) (x : Int) : String :=
+  match ch with
+  | "red" => toString (Color.setRed v x) | "green" => toString (Color.setGreen v x)
+  | "blue" => toString (Color.setBlue v x) | "alpha" => toString (Color.setAlpha v x)
+  | "rgb" => toString (Color.setRgb x.toNat) | "bgr" => toString (Color.setBgr x.toNat)
+  | "argb" => toString (Color.setArgb x.toNat) | "rgba" => toString x.toNat
+  | _ => "bad-op"
+
 def step (line : String) : String :=
   match line.splitOn "\t" with
+  | ["c13.parse", s] =>
+      (match Color.parse numF (6.283185307179586 : Float) (stringOfHex s).toList with
+       | some v => "OK " ++ toString v
+       | none => "OK None")
+  | ["c13.get", ch, v] => "OK " ++ c13get ch v.toNat!
+  | ["c13.set", ch, v, x] => "OK " ++ c13set ch v.toNat! (intOf x)
+  | ["c13.pack", r, g, b, a] => "OK " ++ toString (Color.pack (intOf r) (intOf g) (intOf b) (intOf a))
   | ["c12.parse", s] => "OK " ++ fmtLen (lenOfHex s)
   | ["c12.value", s, ppi, rel, fs, fh, vb] =>
       fmtVal (Len.value (lenOfHex s) { ppi := optF ppi, rel := relOf rel, fontSize := optF fs,
